@@ -26,12 +26,19 @@ pops it — the state observation O6 of DESIGN.md describes for the decoder).
 (3) Histories: `XReach` = `WOp` steps + `AnchoredSlice::default()` anywhere + `push_anchor` of a
 chunk-less anchor on iovecs whose anchor deque is non-empty.  C05's statements hold in every such world.
 These are named `_partial`: the full statement quantifies over `push_anchor(Default::default())` on ANY
-iovec, including one whose deque is empty; what is missing is the re-proof of `WorldInv.step` (38 `WOp`
-cases, `Proofs/IovecOwn.lean`) for the invariant without `HeadPos` (track `rdrworld` builds that
-invariant, `IovOkZ`, for the codec micro-steps).  The empty-deque histories are covered by the
-correspondence run and the direct oracles only.
+iovec, including one whose deque is empty, interleaved with ALL 38 `WOp`s; what is missing is the
+re-proof of `WorldInv.step` (`Proofs/IovecOwn.lean`) for the invariant without `HeadPos`.
+
+(4) Any deque, also an empty one, for the producer / consumer vocabulary of ONE iovec: on top of track
+`rdrworld`'s invariant without head condition (`HInv`, `Proofs/AnchGuard.lean`) `push_anchor` of a
+chunk-less anchor preserves the invariant on any deque (`push_anchor_default_hinv`), and after any chain of
+micro-steps (push_copy, push of caller-buffer ranges, register_patch, backfill, consume, advance_slices,
+`read_n` into the own arena, the codecs' anchored pushes) and such `push_anchor`s from any `XReach` world
+C05's guard / exposed_live / below_bump hold (`dpath_exposed_live`, FULL for that vocabulary).  What remains
+uncovered by a theorem: clone / take / arena hand-off AFTER an empty-deque `push_anchor` (correspondence run
+and direct oracles only).
 -/
-import Woodpile.Proofs.IovecApi2
+import Woodpile.Proofs.IovecApi2H
 
 namespace Woodpile.Props.C05B
 open Woodpile.Iovec Woodpile.Arena
@@ -221,5 +228,68 @@ example : ∃ w caps, XReach w caps ∧ ∃ v, w.iov 0 = some v ∧ v.anchors = 
     refine ⟨_, caps, XReach.anchor (n := 0) hg.xreach.sdef hv' (by rw [hobs.1]; simp) (pushAnchorDefault_some hv' 0),
       { v with anchors := v.anchors ++ [⟨0, none⟩] }, by simp, by simp [hobs.1], ?_⟩
     simp [World.setIov, World.sDefault, World.addASlice, hobs.2]
+
+
+/-! ### Any deque, also an empty one: the invariant without head condition (`Proofs/AnchGuard.lean`, track `rdrworld`)
+
+`HInv i w none` = `WorldInv` without `HeadPos`, plus `ArenaInv`.  It holds in every `WOp`-reachable world, it is
+all `exposed_live` / `below_bump` / `slice_guarded` need, and `push_anchor(Default::default())` preserves it
+on ANY anchor deque.  `DPath i` = chains of the micro-steps of a producer / consumer of iovec `i` (`HStep`:
+push_copy, push of a caller-buffer range, register_patch, backfill, consume, advance_slices, lending a buffer,
+`read_n` into the iovec's own arena and the anchored pushes of the codecs, taking a detached slice) with
+`push_anchor` of chunk-less anchors anywhere between calls.  These statements are FULL for that vocabulary
+(they do not cover clone / take / arena hand-off after an empty-deque `push_anchor`: `WOp`s other than the
+micro-steps are only allowed BEFORE the chain, see `XReach`). -/
+
+/-- `push_anchor` of a chunk-less anchor preserves the invariant without head condition, whatever the anchor
+deque holds (also when it is empty). -/
+theorem push_anchor_default_hinv {i n : Nat} {w w' : World} (h : HInv i w none)
+    (hp : w.pushAnchorDefault i n = some w') : HInv i w' none :=
+  h.pushAnchorDefault hp
+
+/-- C05 after ANY chain of micro-steps and chunk-less `push_anchor`s (on any deque) that starts in an `XReach`
+world — in particular in any `WOp`-reachable world: the guard (`slice_guarded`), `exposed_live` and
+`below_bump`. -/
+theorem dpath_exposed_live {w w' : World} {caps : Nat → Nat} (hr : XReach w caps) (i : Nat)
+    (p : DPath i w none w' none) :
+    (∀ j v, w'.iov j = some v →
+      countSum v.anchors = v.slices.length ∧
+      ∀ n s, v.slices[n]? = some s →
+        0 < s.len ∧ ∃ m, Counts v.anchors m n ∧ ∀ k, s.region = .chunk k →
+          ∃ m' : Nat, ∃ a : Anchor, m ≤ m' ∧ v.anchors[m']? = some a ∧ a.chunk = some k) ∧
+    (∃ caps' : Nat → Nat,
+      (∀ j v n, w'.iov j = some v → v.stableCount = some n → ∀ s ∈ v.slices.take n,
+        Live w' s ∧ ∀ k, s.region = .chunk k → k ∈ anchorChunks v.anchors ∧ s.off + s.len ≤ caps' k) ∧
+      (∀ j a, w'.aslice j = some a → a.slice.len ≠ 0 →
+        Live w' a.slice ∧ ∃ k, a.slice.region = .chunk k ∧ a.anchor.chunk = some k ∧
+          a.slice.off + a.slice.len ≤ caps' k)) ∧
+    (∃ caps' : Nat → Nat,
+      (∀ x x' c c', w'.cacheAt x = some c → w'.cacheAt x' = some c' → c.chunk = c'.chunk → x = x') ∧
+      (∀ x c, w'.cacheAt x = some c → c.bump ≤ c.cap ∧ caps' c.chunk = c.cap ∧
+        ∀ s, w'.HasSlice s → s.region = .chunk c.chunk → s.off + s.len ≤ c.bump)) := by
+  have h := p.inv (hr.hInv i)
+  exact ⟨fun j v hv => h.slice_guarded hv, h.exposed_live, h.below_bump⟩
+
+-- a chain that starts with `push_anchor(Default::default())` on the EMPTY deque of a fresh iovec, then copies:
+-- the zero-count anchor stays at the front (the head condition fails), everything C05 says still holds
+example : ∃ w w' caps, XReach w caps ∧ DPath 0 w none w' none ∧
+    (w'.iov 0).map (·.anchors) = some [⟨0, none⟩, ⟨1, some 0⟩] := by
+  have h0 : XReach (World.init pol tun) (fun _ => 0) := .init pol tun
+  obtain ⟨c1, ho1, hn1⟩ := (step_astep (w := World.init pol tun) (op := .new) rfl).exists_caps h0.inv.1 h0.inv.2
+  have h1 := XReach.step h0 (op := .new) rfl ho1 hn1
+  obtain ⟨w1, hw1⟩ := Option.isSome_iff_exists.1
+    (show (((World.init pol tun).addIov Iov.empty).1.pushAnchorDefault 0).isSome = true by decide +kernel)
+  obtain ⟨w2, hw2⟩ : ∃ w2, w1.pushCopy 0 [7] = some w2 := by
+    have : ((((World.init pol tun).addIov Iov.empty).1.pushAnchorDefault 0).bind fun w => w.pushCopy 0 [7]).isSome = true := by
+      decide +kernel
+    rw [hw1] at this
+    exact Option.isSome_iff_exists.1 this
+  refine ⟨_, w2, c1, h1, .cons (.anchorDefault hw1) (.cons (.micro (.copy hw2)) (.nil _ _)), ?_⟩
+  have : ((((World.init pol tun).addIov Iov.empty).1.pushAnchorDefault 0).bind fun w => (w.pushCopy 0 [7]).map
+      fun w => (w.iov 0).map (·.anchors)) = some (some [⟨0, none⟩, ⟨1, some 0⟩]) := by decide +kernel
+  rw [hw1] at this
+  simp only [Option.bind_some, hw2, Option.map_some, Option.some.injEq] at this
+  exact this
+
 
 end Woodpile.Props.C05B
